@@ -92,7 +92,19 @@ func (ctx *Context) Parse(value string) error {
 	}
 	// 设置错误消息语言
 	SetParseErrorLanguage(ctx.Config.ParseErrorLanguage)
-	_, err := p.parse(nil)
+	_, err := func() (val any, err error) {
+		defer func() {
+			// 超出 ParseExprLimit 时解析器以 panic 终止，这里转为普通错误
+			if r := recover(); r != nil {
+				if r == any(errMaxExprCnt) {
+					err = errMaxExprCnt
+					return
+				}
+				panic(r)
+			}
+		}()
+		return p.parse(nil)
+	}()
 	if err != nil {
 		ctx.Error = err
 		return err
